@@ -33,7 +33,7 @@ BOUNDS = {"quick": "8 base arrays (empty row first/middle/last/none/all, one row
 Q_BASES = [[2, 0, 3], [0, 2, 1], [1, 3, 0], [2, 1, 3], [0, 0], [3], [], [1, 0, 0, 2]]
 T_BASES = Q_BASES + [[1, 1, 1], [0], [2, 2], [3, 0, 1]]
 PPARTS_Q = 4
-FOPS = [["add1"], ["neg"], ["mulcol"], ["cat"], ["sort"], ["cumsum"], ["diff"], ["where", 3], ["float"], ["mat"], ["astype_same"]]
+FOPS = [["add1"], ["neg"], ["mulcol"], ["cat"], ["sort"], ["cumsum"], ["diff"], ["where", 3], ["float"], ["mat"], ["astype_same"], ["cat1"]]
 ALIAS_SELS = ("E", "T0", ["t", "E"])
 
 
@@ -133,7 +133,7 @@ def model_step(rows, op):
         return [[v if v > op[1] else -v for v in r] for r in rows]
     if k == "float":
         return [[float(v) for v in r] for r in rows]
-    if k in ("mat", "astype_same"):
+    if k in ("mat", "astype_same", "cat1"):
         return [list(r) for r in rows]
     raise ValueError(op)
 
@@ -165,6 +165,8 @@ def impl_step(x, op):
         return x
     if k == "astype_same":
         return x.astype(x.dtype)
+    if k == "cat1":
+        return np.concatenate([x])
     raise ValueError(op)
 
 
@@ -231,6 +233,22 @@ def _mismatch(x):
     return RaggedArray(np.arange(sum(lens)), lens)
 
 
+def _like(x, offset=100):
+    """a freshly built ragged array with x's row lengths (built from the lengths only, x's data is not touched)"""
+    from npstructures import RaggedArray
+    lens = [int(l) for l in x.lengths]
+    return RaggedArray(np.arange(offset, offset + sum(lens)), lens)
+
+
+def _pair_index(x):
+    """x[rows, cols] with ndarray operands (negative entries included); the operands must come back unchanged"""
+    n = len(x)
+    ri = np.array([0, n - 1, 0][: max(1, min(3, n))]) if n else np.array([], dtype=int)
+    ci = np.array([-1, 0, 0][: len(ri)])
+    r = x[ri, ci]
+    return (r, ri.tolist(), ci.tolist())
+
+
 def _indep_mask(x):
     """a boolean ragged mask built WITHOUT touching x's data (only its row lengths)"""
     from npstructures import RaggedArray
@@ -253,6 +271,11 @@ READ_PROBES = [
     ("x[indep-mask]", lambda x: x[_indep_mask(x)]), ("subset(indep-mask)", lambda x: x.subset(_indep_mask(x))),
     ("ragged_slice", lambda x: __import__("npstructures").ragged_slice(x, np.minimum(1, np.asarray(x.lengths)), np.asarray(x.lengths))),
     ("ragged_slice-ends", lambda x: __import__("npstructures").ragged_slice(x, ends=np.full(len(x), -1))),
+    ("x[0, 99]", lambda x: x[0, 99]), ("x[0, -99]", lambda x: x[0, -99]), ("x[99]", lambda x: x[99]), ("x[:, 99]", lambda x: x[:, 99]),
+    ("x[[0], 99]", lambda x: x[[0], 99]), ("x[-1, -99]", lambda x: x[-1, -99]), ("x[ri, ci]", _pair_index),
+    ("where(indep-mask, x, -1)", lambda x: np.where(_indep_mask(x), x, -1)), ("where(m, fresh, x)", lambda x: np.where(_indep_mask(x), _like(x), x)),
+    ("where(m, x, fresh)", lambda x: np.where(_indep_mask(x), x, _like(x))), ("concat(fresh, x)", lambda x: np.concatenate([_like(x), x])),
+    ("concat1(fresh, x)", lambda x: np.concatenate([_like(x), x], axis=-1)), ("fresh+x", lambda x: _like(x) + x), ("fresh[...]=x", lambda x: (lambda f: (f.__setitem__(Ellipsis, x), f)[1])(_like(x))),
     ("x[...]", lambda x: x[...]), ("x[()]", lambda x: x[()]), ("x[...][::-1]", lambda x: x[...][::-1]),
     ("x+1", lambda x: x + 1), ("x*col", lambda x: x * _col(x)), ("col-x", lambda x: _col(x) - x),
     ("x+x", lambda x: x + x), ("x*fcol", lambda x: x * _fcol(x)), ("fcol-x", lambda x: _fcol(x) - x), ("x+mismatch", lambda x: x + _mismatch(x)),
